@@ -117,7 +117,7 @@ func c09Alphabet(cfg c09Cfg) []c09Op {
 	upd := []pr{{c09TConn, c09TRC}, {c09TConn, c09TTemp}, {c09TTemp, c09TZero}, {c09TTemp, c09TConn}, {c09TRC, c09TConn}, {c09TRC, c09TTemp}, {c09TTemp, c09TTemp}}
 	recSets := []int{0, 2}
 	recT := []int{c09TTemp, c09TConn}
-	adv := []int{1, 2}          // 2 m, 15 m
+	adv := []int{0, 1, 2}       // 1 m (half a Temp lifetime: refresh-before-expiry histories), 2 m, 15 m
 	if cfg.alphabet == "mini" { // for the deepest 2-peer searches
 		sets = []int{0, 5}
 		setT = []int{c09TZero, c09TTemp, c09TConn}
